@@ -1625,13 +1625,25 @@ fn main() {
     let nacl = N_BASE_ACLS as u64;
     let seed = ctx.seed;
 
+    // per-family wall time (seconds) for the evidence
+    let fam_times: std::sync::Mutex<Vec<(String, f64, u64)>> = std::sync::Mutex::new(vec![]);
+    let fam_last = std::cell::Cell::new((ctx.elapsed_s(), 0u64));
+    let fam_mark = |name: &str| {
+        let (t0, e0) = fam_last.get();
+        let (t1, e1) = (ctx.elapsed_s(), ctx.evals());
+        fam_times.lock().unwrap().push((name.to_string(), ((t1 - t0) * 100.0).round() / 100.0, e1 - e0));
+        fam_last.set((t1, e1));
+    };
+
     // ---- F0: zone dispatch, plain queries ---------------------------------------------------
     {
-        let qtypes: [u16; 6] = [16, 1, 6, 2, 15, 28];
+        // quick keeps every dimension with its smallest non-trivial value set; NS/MX/AAAA and the
+        // flag-less header are thorough-only
+        let qtypes: Vec<u16> = if thorough { vec![16, 1, 6, 2, 15, 28] } else { vec![16, 1, 6] };
         let edns: [usize; 3] = [0, 1, 7];
-        let flagsets: [u16; 3] = [0x0000, 0x0100, 0x0030];
+        let flagsets: Vec<u16> = if thorough { vec![0x0000, 0x0100, 0x0030] } else { vec![0x0100, 0x0030] };
         let ids: [u16; 2] = [0, 0xffff];
-        let od = Odometer::new(&[2, 3, 3, 6, nq, 2, nacl, nshape]);
+        let od = Odometer::new(&[2, flagsets.len() as u64, 3, qtypes.len() as u64, nq, 2, nacl, nshape]);
         let n = od.space();
         ctx.set("F0_zone_dispatch_cases", json!(n));
         ctx.par_run_init(
@@ -1656,6 +1668,8 @@ fn main() {
             },
         );
     }
+
+    fam_mark("F0");
 
     // ---- FA: access product (sources x deny lists x allow lists) ---------------------------
     {
@@ -1689,6 +1703,8 @@ fn main() {
             },
         );
     }
+
+    fam_mark("FA");
 
     // ---- FU: updates and signed requests against a really updatable zone ----------------------
     {
@@ -1725,10 +1741,12 @@ fn main() {
         }
     }
 
+    fam_mark("FU");
+
     // ---- FE: EDNS option bodies at every length boundary x EDNS version ------------------------
     // (a) OPT RDATA = EVERY string of length <= 3 (thorough 4) over S + {08, 0a};
     // (b) OPT RDATA = one option: every assigned option code (+ unassigned, local-use, 65535) x
-    //     EVERY data string of length <= 4 (thorough 6) over {00,01,02,08,21,ff} (address families,
+    //     EVERY data string of length <= 3 (thorough 6) over {00,01,02,08,21,ff} (address families,
     //     prefix lengths at and beyond the address width);
     // each with RDLENGTH / OPTION-LENGTH exact, one short and one long, and EDNS version 0 and 1.
     {
@@ -1772,7 +1790,7 @@ fn main() {
             total += n * (if len == 0 { 2 } else { 3 }) * 2 * places.len() as u64;
         }
         // (b)
-        for len in 0..=(if thorough { 6u32 } else { 4 }) {
+        for len in 0..=(if thorough { 6u32 } else { 3 }) {
             let n = vcore::enumerate::pow(data_alpha.len() as u64, len);
             ctx.par_run_init(
                 n,
@@ -1803,6 +1821,8 @@ fn main() {
         }
         ctx.set("FE_edns_option_body_cases", json!(total));
     }
+
+    fam_mark("FE");
 
     // ---- FL: large requests (integer-width boundaries of lengths and counts) -------------------
     {
@@ -1882,6 +1902,8 @@ fn main() {
         );
     }
 
+    fam_mark("FL");
+
     // ---- FI: requests from several sources interleaved on one server object ------------------
     {
         let t = acl_table();
@@ -1954,6 +1976,8 @@ fn main() {
         }
     }
 
+    fam_mark("FI");
+
     // ---- FS: the catalog shapes with one deviating configuration dimension -------------------
     // (zone transfers allowed, origins configured in upper/mixed case, secondary zones, longer
     // handler chains with skipping handlers before and after the zone, NSID configured)
@@ -1983,6 +2007,8 @@ fn main() {
         );
     }
 
+    fam_mark("FS");
+
     // ---- F0b: zone dispatch over the systematic label-alphabet names ------------------------
     {
         let names = if thorough { sys_names(&LABELS_THOROUGH) } else { sys_names(&LABELS_QUICK) };
@@ -2008,11 +2034,16 @@ fn main() {
         );
     }
 
+    fam_mark("F0b");
+
     // ---- F1: dispatch product, every opcode ------------------------------------------------
     {
-        let qtypes: Vec<u16> = if thorough { vec![16, 1, 6, 2, 28, 255, 252, 41, 65535] } else { vec![16, 1, 6] };
+        let qtypes: Vec<u16> = if thorough { vec![16, 1, 6, 2, 28, 255, 252, 41, 65535] } else { vec![16, 6] };
         let edns: Vec<usize> = if thorough { vec![0, 1, 2, 3, 7, 10, 11, 12] } else { vec![0, 2, 3] };
-        let od = Odometer::new(&[16, edns.len() as u64, qtypes.len() as u64, nq, 2, nacl, nshape]);
+        // quick: one access row per verdict class (none, denied, allow override, v4-mapped denied,
+        // v6 denied); all 14 rows x every opcode in thorough (F0 and FA cross all rows in quick)
+        let acls_f1: Vec<usize> = if thorough { (0..N_BASE_ACLS).collect() } else { vec![0, 1, 4, 8, 10] };
+        let od = Odometer::new(&[16, edns.len() as u64, qtypes.len() as u64, nq, 2, acls_f1.len() as u64, nshape]);
         let n = od.space();
         ctx.set("F1_dispatch_cases", json!(n));
         ctx.par_run_init(
@@ -2021,7 +2052,7 @@ fn main() {
             |_| Worker::new(&world),
             |i, l, w| {
                 let d = od.get(rotate(i, n, seed));
-                let pl = Place { shape: d[6] as usize, acl: d[5] as usize, tcp: d[4] == 1 };
+                let pl = Place { shape: d[6] as usize, acl: acls_f1[d[5] as usize], tcp: d[4] == 1 };
                 let flags = ((d[0] as u16) << 11) | 0x0100;
                 let req = build_request(0x0102, flags, &w.world.qn[d[3] as usize].wire, qtypes[d[2] as usize], 1, edns[d[1] as usize]);
                 run_one(w, "F1", pl, &req, l);
@@ -2032,13 +2063,17 @@ fn main() {
         );
     }
 
+    fam_mark("F1");
+
     // ---- F2: class / type / EDNS product ---------------------------------------------------
     {
         let qtypes: [u16; 9] = [1, 16, 6, 2, 252, 255, 41, 65535, 0];
         let qclasses: [u16; 4] = [1, 3, 255, 0];
         let opcodes: Vec<u16> = if thorough { vec![0, 5, 2, 9] } else { vec![0, 5] };
         let acls: Vec<usize> = if thorough { vec![0, 1, 4] } else { vec![0, 1] };
-        let od = Odometer::new(&[opcodes.len() as u64, EDNS_NAMES.len() as u64, 4, 9, nq, 2, acls.len() as u64, nshape]);
+        // quick: nested, 3-deep nested, root+z and the empty catalog; all 10 base shapes in thorough
+        let shapes_f2: Vec<usize> = if thorough { (0..N_BASE_SHAPES).collect() } else { vec![1, 2, 5, 6] };
+        let od = Odometer::new(&[opcodes.len() as u64, EDNS_NAMES.len() as u64, 4, 9, nq, 2, acls.len() as u64, shapes_f2.len() as u64]);
         let n = od.space();
         ctx.set("F2_type_class_edns_cases", json!(n));
         ctx.par_run_init(
@@ -2047,7 +2082,7 @@ fn main() {
             |_| Worker::new(&world),
             |i, l, w| {
                 let d = od.get(rotate(i, n, seed));
-                let pl = Place { shape: d[7] as usize, acl: acls[d[6] as usize], tcp: d[5] == 1 };
+                let pl = Place { shape: shapes_f2[d[7] as usize], acl: acls[d[6] as usize], tcp: d[5] == 1 };
                 let flags = opcodes[d[0] as usize] << 11;
                 let req = build_request(
                     0xffff,
@@ -2065,10 +2100,16 @@ fn main() {
         );
     }
 
+    fam_mark("F2");
+
     // ---- F3: header product ----------------------------------------------------------------
     {
-        let ids: [u16; 3] = [0, 1, 0xffff];
-        let places = place_list(&[1, 5], &[0, 1], &[false]);
+        let ids: Vec<u16> = if thorough { vec![0, 1, 0xffff] } else { vec![0, 0xffff] };
+        let places = if thorough {
+            place_list(&[1, 5], &[0, 1], &[false])
+        } else {
+            vec![Place { shape: 1, acl: 0, tcp: false }, Place { shape: 5, acl: 1, tcp: false }]
+        };
         let names: Vec<usize> = if thorough {
             (0..world.qn.len()).collect()
         } else {
@@ -2078,7 +2119,7 @@ fn main() {
                 .collect()
         };
         let edns: [usize; 3] = [0, 1, 2];
-        let od = Odometer::new(&[3, 2, 16, 8, 2, N_COUNT_VARIANTS, names.len() as u64, 3, places.len() as u64]);
+        let od = Odometer::new(&[ids.len() as u64, 2, 16, 8, 2, N_COUNT_VARIANTS, names.len() as u64, 3, places.len() as u64]);
         let n = od.space();
         ctx.set("F3_header_product_cases", json!(n));
         ctx.par_run_init(
@@ -2098,6 +2139,8 @@ fn main() {
             },
         );
     }
+
+    fam_mark("F3");
 
     // ---- F4: prefixes and single-byte substitutions of representative requests -------------
     {
@@ -2148,6 +2191,8 @@ fn main() {
         );
     }
 
+    fam_mark("F4");
+
     // ---- F4b (thorough): every PAIR of substitutions from S in the shorter seeds ------------
     if thorough {
         let seeds: Vec<(&'static str, Vec<u8>)> = seeds(&world).into_iter().filter(|s| s.1.len() <= 80).collect();
@@ -2182,9 +2227,11 @@ fn main() {
         );
     }
 
+    fam_mark("F4b");
+
     // ---- F5: all short strings over S as whole messages ------------------------------------
     {
-        let maxlen: u32 = if thorough { 6 } else { 5 };
+        let maxlen: u32 = if thorough { 6 } else { 4 };
         let pl = Place { shape: 1, acl: 0, tcp: false };
         let mut total = 0u64;
         for len in 0..=maxlen {
@@ -2204,6 +2251,8 @@ fn main() {
         ctx.set("F5_short_string_cases", json!(total));
         ctx.set("F5_max_len", json!(maxlen));
     }
+
+    fam_mark("F5");
 
     // ---- F6: all strings over S as the body behind fixed headers ---------------------------
     {
@@ -2240,8 +2289,8 @@ fn main() {
         }
         for (hi, (_, h)) in headers.iter().enumerate() {
             for len in 0..=maxlen {
-                if !thorough && hi == 2 && len == maxlen {
-                    continue; // quick: the UPDATE header only up to length 4
+                if !thorough && hi != 0 && len == maxlen {
+                    continue; // quick: length 5 only behind the plain query header
                 }
                 let n = vcore::enumerate::pow(14, len);
                 total += n;
@@ -2262,6 +2311,9 @@ fn main() {
         ctx.set("F6_max_body_len", json!(maxlen));
         ctx.set("F6_headers", json!(headers.iter().map(|h| h.0).collect::<Vec<_>>()));
     }
+
+    fam_mark("F6");
+    ctx.set("family_wall_s_and_cases", json!(fam_times.lock().unwrap().iter().map(|(n, t, c)| json!({"family": n, "wall_s": t, "cases": c})).collect::<Vec<_>>()));
 
     ctx.set("shapes", json!(SHAPES.iter().map(|s| s.what).collect::<Vec<_>>()));
     ctx.set("access_lists", json!(acls()[..N_BASE_ACLS].iter().map(|a| a.what.as_str()).collect::<Vec<_>>()));
